@@ -203,11 +203,16 @@ def points(ctx, n):
                         R(pe), 'T'], cls='ops:ristretto')
 
 
-def task(prop, seed, size_, cfgbins):
+def make(seed, size_):
     ctx = core.Ctx(seed, prefix='q%d_' % (seed % 100000))
     scalars(ctx, max(4, size_ // 3))
     encodings(ctx, max(4, size_ // 3))
     points(ctx, max(4, size_ // 6))
+    return ctx
+
+
+def task(prop, seed, size_, cfgbins):
+    ctx = make(seed, size_)
     return core.run_and_judge(prop, ctx, cfgbins)
 
 
